@@ -18,6 +18,7 @@
 package tsdb
 
 import (
+	"errors"
 	"fmt"
 	"io"
 	"strconv"
@@ -31,6 +32,7 @@ import (
 	"go.uber.org/atomic"
 
 	"github.com/lindb/lindb/config"
+	"github.com/lindb/lindb/constants"
 	"github.com/lindb/lindb/flow"
 	"github.com/lindb/lindb/kv"
 	"github.com/lindb/lindb/metrics"
@@ -392,17 +394,29 @@ func (f *dataFamily) MemDBSize() int64 {
 // if it finds data then returns the FilterResultSet, else returns nil
 func (f *dataFamily) Filter(executeCtx *flow.ShardExecuteContext) (resultSet []flow.FilterResultSet, err error) {
 	f.lastReadTime.Store(fasttime.UnixMilliseconds())
+	// "not found" of one source(memory database/files) must not hide the data of the other sources
+	// of this family, it's the answer of the family only if no source finds data.
+	var notFound error
 	memRS, err := f.memoryFilter(executeCtx)
 	if err != nil {
-		return nil, err
+		if !errors.Is(err, constants.ErrNotFound) {
+			return nil, err
+		}
+		notFound = err
 	}
 	fileRS, err := f.fileFilter(executeCtx)
 	if err != nil {
-		return nil, err
+		if !errors.Is(err, constants.ErrNotFound) {
+			return nil, err
+		}
+		notFound = err
 	}
 	resultSet = append(resultSet, memRS...)
 	resultSet = append(resultSet, fileRS...)
-	return
+	if len(resultSet) == 0 && notFound != nil {
+		return nil, notFound
+	}
+	return resultSet, nil
 }
 
 // GetState returns the current state include memory database state.
@@ -452,9 +466,15 @@ func (f *dataFamily) GetState() models.DataFamilyState {
 }
 
 func (f *dataFamily) memoryFilter(shardExecuteContext *flow.ShardExecuteContext) (resultSet []flow.FilterResultSet, err error) {
+	var notFound error
 	memFilter := func(memDB memdb.MemoryDatabase) error {
 		rs, err := memDB.Filter(shardExecuteContext)
 		if err != nil {
+			if errors.Is(err, constants.ErrNotFound) {
+				// the other memory database may still have the data
+				notFound = err
+				return nil
+			}
 			return err
 		}
 		resultSet = append(resultSet, rs...)
@@ -472,7 +492,10 @@ func (f *dataFamily) memoryFilter(shardExecuteContext *flow.ShardExecuteContext)
 			return nil, err
 		}
 	}
-	return
+	if len(resultSet) == 0 && notFound != nil {
+		return nil, notFound
+	}
+	return resultSet, nil
 }
 
 func (f *dataFamily) fileFilter(shardExecuteContext *flow.ShardExecuteContext) (resultSet []flow.FilterResultSet, err error) {
